@@ -25,12 +25,13 @@ def run(tier, seed, replay=None):
     seqs = os.path.join(rq.dir, "c15seq.ndjson")
     nseq = sum(1 for _ in open(seqs))
     if not replay:
-        rc = vlib.tlc(SPEC, "ControlSession_c15seq_cache.cfg", wd, workers=1, timeout=600)
-        if rc.violated != "NoEffectWithoutTokenSeq":
-            raise vlib.Inconclusive("the model of a verifier that remembers tokens did not violate NoEffectWithoutTokenSeq: exit %s\n%s" % (rc.exit, rc.output[-1200:]))
-        wit.append("VerifierRemembersTokens refuted")
+        for cname, label in (("ControlSession_c15seq_cache.cfg", "VerifierRemembersTokens"), ("ControlSession_c15seq_carry.cfg", "ConnectionRemembersToken")):
+            rc = vlib.tlc(SPEC, cname, wd, workers=1, timeout=600)
+            if rc.violated != "NoEffectWithoutTokenSeq":
+                raise vlib.Inconclusive("the model with %s did not violate NoEffectWithoutTokenSeq: exit %s\n%s" % (label, rc.exit, rc.output[-1200:]))
+            wit.append(label + " refuted")
         if tier != "quick":
-            wit += vlib.witnesses(SPEC, "ControlSession_c15seq.cfg", ["W15Seq_NoReplayRefused"], wd, workers=1)
+            wit += vlib.witnesses(SPEC, "ControlSession_c15seq.cfg", ["W15Seq_NoReplayRefused", "W15Seq_NoTokenlessFollowUp"], wd, workers=1)
     vectors = os.path.join(r.dir, "c15.ndjson")
     nvec = sum(1 for _ in open(vectors))
     if nvec != r.distinct:
@@ -45,7 +46,7 @@ def run(tier, seed, replay=None):
     if quick:
         # seeded stratified subset: two rotating token classes in every (command, connection, work type) cell, plus valid and
         # absent in the cells the property protects
-        args += ["-subset", "2"]
+        args += ["-subset", "1"]
     if replay:
         args += ["-replay", replay]
     res = vlib.harness_json(vctl, args, wd, timeout=3000)
@@ -56,9 +57,10 @@ def run(tier, seed, replay=None):
     planned = res["counters"].get("vectors", 0) * inst
     nsu = res["counters"].get("seq_uses", 0)
     if not replay and not v.violations and (res["counters"].get("seq_replays_refused", 0) == 0 or res["counters"].get("seq_valid_reuse", 0) == 0
+                                            or res["counters"].get("seq_sameconn_tokenless_refused", 0) == 0 or res["counters"].get("seq_sameconn_own_token_accepted", 0) == 0
                                             or res["counters"].get("seq_not_established", 0) > res["counters"].get("sequences", 0) // 3):
         raise vlib.Inconclusive("sequence phase vacuous or not established: %s" % res["counters"])
-    if not replay and not v.violations and (res["evaluations"] != planned + nsu or (not quick and planned != nvec * inst) or planned < 75 * 2 * inst):
+    if not replay and not v.violations and (res["evaluations"] != planned + nsu or (not quick and planned != nvec * inst) or planned < 90 * inst):
         raise vlib.Inconclusive("harness evaluated %d of %d planned vector instances + %d sequence uses (table %d)" % (res["evaluations"], planned, nsu, nvec))
     c = res["counters"]
     if not replay and (c.get("effects_confirmed", 0) == 0 or c.get("refusals_confirmed", 0) == 0):
@@ -71,14 +73,16 @@ def run(tier, seed, replay=None):
         "rule": "TLC enumerates every (command, connection kind, work-type class, token class) vector of ControlSession.tla part c15, plus submit with "
                 "five other spellings of the registered type names (capitalisation, surrounding white space, look-alike letters) judged by the rule "
                 "'refused as unknown type or held to the token rule of the type it runs as'; " +
-                ("quick: a seeded stratified subset (every one of the 75 command x connection x work-type cells with two token classes rotating with "
-                 "cell and seed - every token class occurs in 15 cells - plus valid and absent in the 20 protected cells) is " if quick else "every vector is ") +
+                ("quick: a seeded stratified subset (every one of the 90 command x connection x work-type cells with one token class rotating with "
+                 "cell and seed plus valid and absent in the protected cells) is " if quick else "every vector is ") +
                 "executed %d time(s) on the real daemon with freshly built tokens (valid: RS512/RS256/PS384 by the configured key; expired; other audience "
                 "incl. none/empty/upper-case; other key; alg none with and without a borrowed signature; HS256/HS512 keyed with the public-key PEM; "
                 "truncated; empty; garbage) and a live unit of the class; effect = new unit / state change / runner pid gone / directory removed / "
                 "stream bytes received, from snapshots taken over the Unix socket and the file system. Then token life-cycle sequences of part c15seq "
                 "(use a, [tick past expiry, [restart]], use b - all 300 in thorough, the same-command, submit-token-for-other-command, reuse-while-valid "
-                "and after-restart ones in quick): a token living 3-4 s is accepted, and the identical string is replayed >= 1.5 s after its expiry; "
+                "and after-restart ones in quick): a token living 3-4 s is accepted, and the identical string is replayed >= 1.5 s after its expiry; and "
+                "same-connection sequences (a command with a valid token, then a command for the same / another unit with its own token or with NONE, "
+                "per connection kind: judged by its own token only); "
                 "distinct = distinct (vector, token variant, request form) + distinct sequences" % inst,
         "samples": (res.get("samples") or [{"note": "run stopped before sampling"}])[:6], "exhaustive": not quick, "vectors": nvec,
         "vectors_replayed": res["counters"].get("vectors", 0), "instances_per_vector": inst,
